@@ -256,6 +256,16 @@ def wrapper_case(rng, idx, stats):
     shapes = []
     for i in range(n):
         shape = rng.choice(SHAPES)
+        if shape in ("cc", "oo", "co", "oc") and rng.random() < 0.04:
+            # a finite interval only a few TINY wide (the quantifier states no minimum width): init_ raises
+            # for one too narrow to shrink (narrower than 2-3 TINY), builds a finite coordinate otherwise
+            lo = 0.0
+            hi = rng.choice([0.5, 1.0, 1.5, 1.9, 2.1, 2.5, 2.9, 3.1, 3.5, 4.5, 6.0]) * TINY
+            v = hi * rng.choice([0.5, 0.1, 0.9, rng.uniform(0.01, 0.99)])
+            shapes.append(shape)
+            toks += [shape, hx(lo), hx(hi), hx(v), hx(dyadic(rng)), hx(dyadic(rng)), hx(dyadic(rng, 0.4))]
+            stats["narrow_interval"] = stats.get("narrow_interval", 0) + 1
+            continue
         if shape != "none" and rng.random() < 0.3:
             # values at distance 0, 1 ulp, 1e-18 .. 1e-9, ~TINY, ~2 TINY from a closed or an open
             # bound, all eight configurations (at distance 0 from an open bound the function's own
@@ -412,7 +422,11 @@ def object_case(rng, idx, stats):
         else:
             items = []
             for i in sel:
-                if rng.random() < 0.07:
+                if rng.random() < 0.04 and funcs[fid][i][0] != "none":
+                    # the given parameter lacks the function's constraint (Parameter(name, value))
+                    items.append("%d!" % i)
+                    st("ob_given_without_constraint")
+                elif rng.random() < 0.07:
                     items.append("%d@%s" % (i, hx(inside_value(rng, funcs[fid][i]))))
                     st("ob_given_other_value")
                 else:
